@@ -75,24 +75,43 @@ def c05_1(ctx, ss):
     ff, flow = fn(ss, DEC, "DecFileParser._dict_raw_model_aliases")
     rets = [r for r in returns(ff) if isinstance(r.value, ast.DictComp)]
     k = ckey(ff, None, "last-wins")
-    if not rets:
-        raise AnchorMissing("_dict_raw_model_aliases: not a dict comprehension")
-    dc = rets[0].value
-    g = dc.generators
-    it = flow.expand(g[0].iter)
-    ok = len(g) == 1 and not g[0].ifs and isinstance(it, ast.Call) and txt(it.func) == "self._parsed_dec_file.find_data" \
-        and it.args and isinstance(it.args[0], ast.Constant) and it.args[0].value == "model_alias"
-    (ctx.holds if ok else ctx.violation)("C05.1", k, where(ff, rets[0]),
-                                          "ModelAlias table: dict comprehension directly over find_data('model_alias') (last wins)" if ok
-                                          else f"ModelAlias statements are filtered / reordered (`{txt(it)[:80]}`): the last definition no longer wins")
     from ..core.treetypes import TreeTyper
     tt = TreeTyper(gf)
-    env = {g[0].target.id: tt.tree("model_alias")} if isinstance(g[0].target, ast.Name) else {}
-    kv = tt.check(dc.key, env)
-    vv = tt.check(dc.value, env)
     want_k, want_v = "model_alias/0:model_label/0:LABEL", "copy.deepcopy(model_alias/1:model)"
+
+    def is_src(it):
+        return isinstance(it, ast.Call) and txt(it.func) == "self._parsed_dec_file.find_data" \
+            and it.args and isinstance(it.args[0], ast.Constant) and it.args[0].value == "model_alias"
+    if rets:
+        dc = rets[0].value
+        g = dc.generators
+        it = flow.expand(g[0].iter)
+        ok = len(g) == 1 and not g[0].ifs and is_src(it)
+        (ctx.holds if ok else ctx.violation)("C05.1", k, where(ff, rets[0]),
+                                              "ModelAlias table: dict comprehension directly over find_data('model_alias') (last wins)" if ok
+                                              else f"ModelAlias statements are filtered / reordered (`{txt(it)[:80]}`): the last definition no longer wins")
+        env = {g[0].target.id: tt.tree("model_alias")} if isinstance(g[0].target, ast.Name) else {}
+        kv, vv = tt.check(dc.key, env), tt.check(dc.value, env)
+        site = rets[0]
+    else:
+        # loop-with-store idiom
+        stores = [s_ for s_ in pf.iter_stmts(ff.node.body) if isinstance(s_, ast.Assign) and isinstance(s_.targets[0], ast.Subscript)]
+        if len(stores) != 1:
+            raise AnchorMissing("_dict_raw_model_aliases: neither a dict comprehension nor a single store loop")
+        st = stores[0]
+        lp = enclosing(ff, st, (ast.For,))
+        conds = [c for c in guards.path_conditions(ff.node, st, stop_at=lp[0] if lp else None) if c[0] == "if"]
+        ok = bool(lp) and is_src(flow.expand(lp[0].iter)) and not conds and not any(
+            isinstance(c.func, ast.Attribute) and c.func.attr == "setdefault" for c in pf.calls_in(ff.node))
+        (ctx.holds if ok else ctx.violation)("C05.1", k, where(ff, st),
+                                              "ModelAlias table: unconditional store in document order (last wins)" if ok
+                                              else f"ModelAlias table: the store is guarded (`{'; '.join(txt(c[1])[:60] for c in conds)}`) or statements are reordered: the FIRST definition of a name wins")
+        env = {lp[0].target.id: tt.tree("model_alias")} if lp and isinstance(lp[0].target, ast.Name) else {}
+        kv = tt.check(flow.expand(st.targets[0].slice, keep=set(env)), env)
+        vv = tt.check(flow.expand(st.value, keep=set(env)), env)
+        site = st
     okr = kv.sig() == want_k and vv.sig() == want_v and not tt.errors
-    (ctx.holds if okr else ctx.violation)("C05.1", ckey(ff, None, "reads"), where(ff, rets[0]),
+    (ctx.holds if okr else ctx.violation)("C05.1", ckey(ff, None, "reads"), where(ff, site),
                                            f"alias name = {kv.sig()}, body = children of {vv.sig()}" if okr
                                            else f"ModelAlias table reads key `{kv.sig()}` value `{vv.sig()}` {tt.errors[:1]}; expected `{want_k}` / `{want_v}`")
 
